@@ -1093,6 +1093,65 @@ func (p *Prog) EventsDeep(fn *ssa.Function) []*Ev {
 			}
 			rec(sc, s2, e.Guard, e.Held, depth+1, append(stack, f))
 			descSubst = saved
+			// `s.withLock(func() { … })`: a function literal handed to a private helper that
+			// runs it at once (under a lock it takes) is part of the caller's body, executed
+			// with whatever the helper holds at the call
+			for i, a := range c.Args {
+				mc, ok := a.(*ssa.MakeClosure)
+				if !ok || i >= len(sc.Params) {
+					continue
+				}
+				k, ok := mc.Fn.(*ssa.Function)
+				if !ok {
+					continue
+				}
+				var inv ssa.Instruction
+				nInv := 0
+				EachInstr(sc, func(in ssa.Instruction) {
+					if cc := CallOf(in); cc != nil && cc.Value == ssa.Value(sc.Params[i]) {
+						if _, isGo := in.(*ssa.Go); !isGo {
+							inv = in
+							nInv++
+						}
+					}
+				})
+				if nInv != 1 {
+					continue
+				}
+				savedF := descFreeSubst
+				nf := map[*ssa.FreeVar]string{}
+				for kf, v := range savedF {
+					nf[kf] = v
+				}
+				for j, fv := range k.FreeVars {
+					if j >= len(mc.Bindings) {
+						continue
+					}
+					b := mc.Bindings[j]
+					d := Desc(b)
+					if al, isAl := b.(*ssa.Alloc); isAl {
+						var only ssa.Value
+						cnt := 0
+						for _, ref := range *al.Referrers() {
+							if st, isSt := ref.(*ssa.Store); isSt && st.Addr == al {
+								cnt++
+								only = st.Val
+							}
+						}
+						if cnt == 1 {
+							d = Desc(only)
+						}
+					}
+					nf[fv] = d
+				}
+				descFreeSubst = nf
+				if p.wrapped == nil {
+					p.wrapped = map[*ssa.Function]bool{}
+				}
+				p.wrapped[k] = true
+				rec(k, s2, e.Guard, unionStr(e.Held, p.mutexesHeld(sc, inv)), depth+1, append(stack, f))
+				descFreeSubst = savedF
+			}
 		}
 	}
 	rec(fn, nil, nil, nil, 0, nil)
@@ -1295,7 +1354,7 @@ func (f *F) All() []*Ev {
 // call site, or it is a small leaf (no calls into the module, no goroutines, at most 60
 // instructions) — the shape of a block of code factored out for reuse.
 func (p *Prog) inlinable(fn *ssa.Function) bool {
-	if p.singleUse(fn) {
+	if p.singleUse(fn) || p.wrapped[fn] {
 		return true
 	}
 	if p.leaf == nil {
